@@ -675,10 +675,41 @@ func runC35(c *Ctx) {
 		}
 		c.Floor("dictionary-once", 1)
 	}
+	// counted ⇔ buffered: an entry is in its table's buffer before the batch it belongs to is flushed
+	if f := c.fn("insert-order", "datarecording", "sqliteWriter", "InsertData"); f != nil {
+		t := ExtractTable(p, f, TableConfig{})
+		ok, why := len(t.Rows) > 0 && len(t.Unsupported) == 0, "outside the analysable fragment"
+		for _, r := range t.Rows {
+			if r.Out.Kind == "panic" {
+				continue
+			}
+			app := r.Stores(func(e *Effect) bool { return strings.HasSuffix(e.RecvS, ".entries") && len(e.Args) > 0 && strings.HasPrefix(e.Args[0], "append(") })
+			cnt := r.Stores(func(e *Effect) bool { return strings.HasSuffix(e.RecvS, ".entryCount") })
+			fl := r.Calls(func(e *Effect) bool { return e.Callee != nil && e.Callee.Name() == "flushLocked" })
+			if len(app) != 1 || len(cnt) != 1 {
+				ok, why = false, "every insert must buffer the entry once and count it once"
+				continue
+			}
+			if len(fl) > 0 && !(effIndex(r, app[0]) < effIndex(r, fl[0]) && effIndex(r, cnt[0]) < effIndex(r, fl[0])) {
+				ok, why = false, "the automatic flush runs before the new entry is buffered: the flush resets the pending count to zero while the entry stays in the buffer, and a later Flush/Close sees a count of zero and returns without writing it — the entry that completes a batch is lost when it is the last one"
+			}
+		}
+		c.Check(ok, "insert-order", "datarecording.sqliteWriter.InsertData", p.Decl(f).Pos(), "the entry is buffered and counted before any flush of its batch", why)
+	}
+}
+
+func effIndex(r *Row, e *Effect) int {
+	for i, x := range r.Effects {
+		if x == e {
+			return i
+		}
+	}
+	return -1
 }
 
 func runC41(c *Ctx) {
 	p := c.P
+	loadRestoresRule(c, "load-restores", func(pp string) bool { return pp == pkgPath("timing") }, 2)
 	fns := p.SrcFuncs(func(pp string) bool { return strings.HasSuffix(pp, "/timing") })
 	for _, typ := range []string{"sequentialIDGenerator", "parallelIDGenerator"} {
 		fld := c.field("atomic-only", "timing", typ, "nextID")
